@@ -103,7 +103,7 @@ def main(tier: str, seed: int, replay: str | None = None) -> int:
     rep.proof_stage()
     rep.proof_stage("C18_pure")     # schedule independence where it holds: read-only subtype constraints
     rng = random.Random(seed)
-    nh, npg, cap = (30, 60, 24) if tier == "quick" else (120, 80, 120)
+    nh, npg, cap = (30, 60, 24) if tier == "quick" else (70, 70, 100)
     # corpus: the refutation witness of props/C18.v, replayed on the implementation
     WITNESS_H.build()
     runs, _ = explore(WITNESS_H, WITNESS_PROG, 10)
